@@ -17,10 +17,14 @@ import (
 // C07: realtime entities merge order-independently into unique, sorted trips/vehicles.
 
 type CaseC07Perm struct {
+	vt.Env
 	Zone    string
 	Msg     *rgen.Msg
 	Perm    []int    // entity i of the permuted message is entity Perm[i] of Msg
 	Primers []Primer `json:",omitempty"` // earlier unrelated calls, repeated before each of the two parses
+	// Ext, when its Kind is "nycttrips", parses both orders with that extension (entities it filters out or rewrites must not
+	// make the order matter either); the reference model is then the NYCT one.
+	Ext ExtSpec
 }
 
 var c07PermRec = vt.NewRecorder("C07", "TestC07Perm",
@@ -71,17 +75,25 @@ func checkC07Perm(c CaseC07Perm) error {
 		}
 		seen[p] = true
 	}
-	base, err := parseRT(CaseRT{Zone: c.Zone, Msg: c.Msg, Primers: c.Primers}, nil)
+	var ext func() *gtfs.ParseRealtimeOptions
+	if c.Ext.Kind == "nycttrips" {
+		ext = func() *gtfs.ParseRealtimeOptions { return c.Ext.options(c.Zone) }
+	}
+	base, err := parseRT(CaseRT{Zone: c.Zone, Msg: c.Msg, Primers: c.Primers}, ext)
 	if err != nil {
 		return vt.Failf("ParseRealtime rejected a well-formed message: %v", err)
 	}
 	nb := rgen.Normalize(base)
 	want := rgen.Expect(c.Msg, c.Zone, rgen.ExpectOpts{})
+	if ext != nil {
+		model, _ := rgen.ApplyNyctTrips(c.Msg, c.Ext.Trips)
+		want = rgen.Expect(model, c.Zone, rgen.ExpectOpts{Track: rgen.NyctTrack})
+	}
 	if err := rgen.Compare(nb, want); err != nil {
 		return vt.Failf("original order: %v", err)
 	}
 	pm := permuteMsg(c.Msg, c.Perm)
-	pr, err := parseRT(CaseRT{Zone: c.Zone, Msg: pm, Primers: c.Primers}, nil)
+	pr, err := parseRT(CaseRT{Zone: c.Zone, Msg: pm, Primers: c.Primers}, ext)
 	if err != nil {
 		return vt.Failf("ParseRealtime rejected the permuted message: %v", err)
 	}
@@ -162,6 +174,7 @@ func TestC07Perm(t *testing.T) {
 		}
 		m, info := rgen.GenMsg(t, o)
 		primers := genPrimers(t, zone, m)
+		env := genEnv(t)
 		n := len(m.Entities)
 		var perms [][]int
 		if n <= 4 {
@@ -178,6 +191,7 @@ func TestC07Perm(t *testing.T) {
 		}
 		for _, p := range perms {
 			c := CaseC07Perm{Zone: zone, Msg: m, Perm: p, Primers: primers}
+			c.Env = env
 			identity := true
 			for i, x := range p {
 				if i != x {
@@ -193,6 +207,45 @@ func TestC07Perm(t *testing.T) {
 			}
 			c07PermRec.Eval(cls)
 			if info.MultiMention > 0 && !identity {
+				c07PermRec.NontrivialCase(vt.Fingerprint(c), func() any { return c })
+			}
+			vt.Run(t, c07PermRec, c, checkC07Perm)
+		}
+	})
+}
+
+// TestC07PermNyct: the same relation for feeds parsed with the NYCT trips extension, which filters out stale trip updates and
+// derives vehicles from train ids - a trip update that is dropped, and the entities that still refer to its trip, in every order.
+func TestC07PermNyct(t *testing.T) {
+	rapid.Check(t, func(t *rapid.T) {
+		zone := rapid.SampledFrom([]string{"", "America/New_York"}).Draw(t, "zone")
+		m, nN, _, _ := genNyctMsg(t, zone)
+		ext := ExtSpec{Kind: "nycttrips", Trips: rgen.NyctTripsOpts{FilterStale: rapid.IntRange(0, 3).Draw(t, "filter") != 0, PreserveM: rapid.Bool().Draw(t, "preserveM")}}
+		_, dropped := rgen.ApplyNyctTrips(m, ext.Trips)
+		n := len(m.Entities)
+		var perms [][]int
+		if n <= 3 {
+			perms = permutations(n)
+		} else {
+			for i := 0; i < 4; i++ {
+				perms = append(perms, rapid.Permutation(seqInts(n)).Draw(t, "perm"))
+			}
+			rev := make([]int, n)
+			for i := range rev {
+				rev[i] = n - 1 - i
+			}
+			perms = append(perms, rev)
+		}
+		env := genEnv(t)
+		for _, p := range perms {
+			c := CaseC07Perm{Zone: zone, Msg: m, Perm: p, Ext: ext}
+			c.Env = env
+			cls := "nyct:no-trip-filtered"
+			if dropped > 0 {
+				cls = "nyct:stale-trip-filtered"
+			}
+			c07PermRec.Eval(cls)
+			if nN >= 1 && n >= 2 {
 				c07PermRec.NontrivialCase(vt.Fingerprint(c), func() any { return c })
 			}
 			vt.Run(t, c07PermRec, c, checkC07Perm)
@@ -304,6 +357,7 @@ func TestC07Any(t *testing.T) {
 		zone := rapid.SampledFrom([]string{"", "America/New_York"}).Draw(t, "zone")
 		m, dup := genAnyMsg(t, zone)
 		c := CaseRT{Zone: zone, Msg: m, Primers: genPrimers(t, zone, m)}
+		c.Env = genEnv(t)
 		cls := "no-duplicate"
 		if dup {
 			cls = "conflicting-duplicate"
